@@ -31,7 +31,7 @@ fn meta_json(o: &Obl) -> String {
     let fns: Vec<String> = o.fns.iter().map(|f| format!("\"{}\"", esc(f))).collect();
     format!(
         "\"name\":\"{}\",\"prop\":\"{}\",\"tier\":\"{}\",\"desc\":\"{}\",\"functions\":[{}],\"vars\":[{}]",
-        esc(&o.name), o.prop, if o.tier == Tier::Quick { "quick" } else { "thorough" }, esc(&o.desc), fns.join(","), vars.join(",")
+        esc(&o.name), o.prop, match o.tier { Tier::Quick => "quick", Tier::Thorough => "thorough", Tier::Open => "open" }, esc(&o.desc), fns.join(","), vars.join(",")
     )
 }
 
@@ -193,6 +193,9 @@ fn main() {
             let thorough = args.get(3).map_or(false, |t| t == "thorough");
             for o in all.iter().filter(|o| o.prop.eq_ignore_ascii_case(prop) || &o.name == prop) {
                 if o.tier == Tier::Thorough && !thorough && &o.name != prop {
+                    continue;
+                }
+                if o.tier == Tier::Open && &o.name != prop && std::env::var("PV_OPEN").is_err() {
                     continue;
                 }
                 emit(o);
